@@ -326,9 +326,19 @@ retry:
 	for i := 1; i <= int(itemLevel); i++ {
 	fixThisLevel:
 		for {
+			next := buf.succs[i]
+
+			// The path search may have seen an item equal to x's at this level
+			// which was deleted before x got published at level 0. Its deleter's
+			// unlink pass stops at x, so it must be taken off this level before
+			// x is linked in front of it: search again, which unlinks it.
+			if _, nextDeleted := next.getNext(i); nextDeleted {
+				s.findPath(itm, insCmp, buf, sts)
+				continue fixThisLevel
+			}
+
 			verifYield(VerifPtInsOwn)
 			nodeNext, deleted := x.getNext(i)
-			next := buf.succs[i]
 
 			// Update the node's next pointer at current level if required.
 			// This is the only thread which can modify next pointer at this level
